@@ -25,17 +25,20 @@ def execute(b):
     if emb == "tensor":
         zt = proj.build_tensor(b["z0"], IDS[:depth], default=dz, name="Z")
         at = proj.build_tensor(b["a"], IDS[:depth], default=da, name="A")
-        if b.get("afmt") == "U":
+        if b.get("au"):
+            at = proj.build_tensor(b["a"], IDS[:depth], default=da, shape=[b["ash"]] * depth, name="A")
             at.setFormat(IDS[depth - 1], "U")
         zroot, aroot = zt.getRoot(), at.getRoot()
         pz = lambda: proj.proj_tensor(zt)           # noqa: E731
         pa = lambda: proj.proj_tensor(at)           # noqa: E731
     else:
         zroot = proj.build_fiber(b["z0"], default=dz)
-        aroot = proj.build_fiber(b["a"], default=da)
+        aroot = proj.build_fiber(b["a"], default=da, shape=[b["ash"]] if b.get("au") else None)
+        if b.get("au"):
+            aroot.getRankAttrs().setFormat("U")
         pz = lambda: {"rank0": 0, "root": proj.proj_fiber(zroot), "ranks": []}   # noqa: E731
         pa = lambda: {"rank0": 0, "root": proj.proj_fiber(aroot), "ranks": []}   # noqa: E731
-    out = {"tid": b["tid"], "z0": b["z0"], "a": b["a"], "script": b["script"], "depth": depth, "emb": emb, "dz": dz, "da": da,
+    out = {"tid": b["tid"], "z0": b["z0"], "a": b["a"], "script": b["script"], "depth": depth, "emb": emb, "dz": dz, "da": da, "au": 1 if b.get("au") else 0, "ash": b.get("ash", 0),
            "a0": pa(), "offers": [], "mids": [], "exc": "ok"}
 
     def loop(zf, af, path, lvl):
